@@ -42,15 +42,33 @@ func ruleLookupOK(c *Ctx) {
 			continue
 		}
 		for _, in := range instrsOf(fn) {
-			lk, ok := in.(*ssa.Lookup)
-			if !ok || !lk.CommaOk {
+			var lk ssa.Value
+			switch x := in.(type) {
+			case *ssa.Lookup:
+				if !x.CommaOk {
+					continue
+				}
+				mt, ok := x.X.Type().Underlying().(*types.Map)
+				if !ok {
+					continue
+				}
+				if _, isPtr := mt.Elem().Underlying().(*types.Pointer); !isPtr {
+					continue
+				}
+				lk = x
+			case *ssa.TypeAssert:
+				// `rerr, ok := err.(*reserr.Error)`: nil when the assertion fails
+				if !x.CommaOk {
+					continue
+				}
+				if _, isPtr := x.AssertedType.Underlying().(*types.Pointer); !isPtr {
+					continue
+				}
+				lk = x
+			default:
 				continue
 			}
-			mt, ok := lk.X.Type().Underlying().(*types.Map)
-			if !ok {
-				continue
-			}
-			if _, isPtr := mt.Elem().Underlying().(*types.Pointer); !isPtr {
+			if lk.Referrers() == nil {
 				continue
 			}
 			// the value and the ok of this lookup
